@@ -23,7 +23,7 @@ WITNESS = {
     "filedesc": {"target": "src/sender/filedesc.rs", "src": "units/filedesc/witness.rs"},
     "confine": {"target": "src/receiver/writer/objectwriterfs.rs", "src": "units/confine/witness.rs"},
     "fecenc": {"target": "src/fec/raptor.rs", "src": "units/fecenc/witness.rs", "always": True},
-    "fdtoti": {"target": "src/common/fdtinstance.rs", "src": "units/fdtoti/witness.rs"},
+    "fdtoti": {"target": "src/common/fdtinstance.rs", "src": "units/fdtoti/witness.rs", "always": True},
     "cachectl": {"target": "src/sender/objectdesc.rs", "src": "units/cachectl/witness.rs"},
 }
 WITNESS = {k: v for k, v in WITNESS.items() if os.path.exists(os.path.join(VERIF, v["src"]))}
@@ -71,7 +71,7 @@ PROPS = {
         "not_covered": ["Raptor / RaptorQ decodability", "loss of FDT packets", "the exhaustive loss-subset quantifier as a history property"],
     },
     "C03": {
-        "level": "proof", "verus": U("objrecv", "decoders", "blockwriter"), "kani": [], "structural": [],
+        "level": "proof", "verus": U("objrecv", "decoders", "blockwriter", "fdtoti"), "kani": [], "structural": [],
         "technique": "Verus data-structure invariants (first copy wins, in-order trimmed writes, MD5 gate before complete, one terminal state)",
         "claim": "complete() is reachable only when every byte was written and the MD5 gate passed; symbols are placed by ESI and the first copy wins; "
                  "an object that ended ignores further packets; a writer never sees both complete and error",
